@@ -179,6 +179,7 @@ CATALOGUE = [
     ("varstore-subset-old-major", "varLib/varStore.py", "                varDataMap[(major << 16) + minor] = (newMajor << 16) + newMinor", "                varDataMap[(major << 16) + minor] = (major << 16) + newMinor", "C09", "VarStoreSubsetVarIdxes", "alarm"),
     ("varstore-regions-reversed", "varLib/varStore.py", "    for i in sorted(usedRegions):", "    for i in sorted(usedRegions, reverse=True):", "C09", "VarStoreSubsetVarIdxes", "green"),
     ("numshorts-one-column-short", "varLib/builder.py", "            max((i for i, b in enumerate(byte_lengths) if b > 1), default=-1) + 1", "            max((i for i, b in enumerate(byte_lengths) if b > 1), default=-1)", "C09", "CalculateNumShorts", "alarm"),
+    ("remap-components-xy-scale-size", "subset/__init__.py", "        elif flags & 0x0040:\n            i += 4  # WE_HAVE_AN_X_AND_Y_SCALE", "        elif flags & 0x0040:\n            i += 2  # WE_HAVE_AN_X_AND_Y_SCALE", "C07", "RemapComponentsFast", "alarm"),
     ("closure-memo-subset-spelling", "subset/__init__.py", "    if cur_glyphs.issubset(covered):\n        return\n    covered.update(cur_glyphs)\n\n    for st in self.SubTable:", "    if cur_glyphs <= covered:\n        return\n    covered.update(cur_glyphs)\n\n    for st in self.SubTable:", "C07", "LookupClosureMemo", "green"),
 ]
 
